@@ -458,7 +458,16 @@ func (c *Client) Tx(ctx context.Context, hash []byte, prove bool) (*ctypes.Resul
 	}
 
 	// Validate the proof.
-	return res, res.Proof.Validate(l.DataHash)
+	if err := res.Proof.Validate(l.DataHash); err != nil {
+		return nil, err
+	}
+	// The proof binds Proof.Data at position Proof.Proof.Index of the block's
+	// data; the transaction, hash and index handed out must be that leaf.
+	if !bytes.Equal(res.Proof.Data, res.Tx) || !bytes.Equal(res.Hash, res.Tx.Hash()) ||
+		!bytes.Equal(res.Hash, hash) || int64(res.Index) != res.Proof.Proof.Index {
+		return nil, errors.New("tx, hash or index does not match the proven transaction")
+	}
+	return res, nil
 }
 
 func (c *Client) TxSearch(
